@@ -188,6 +188,20 @@ class LatticeRun:
         self.coverage = {}
 
 
+def f2_key(inp):
+    return json.dumps([list(inp["G"]), inp["dim"], bool(inp["per"]), [list(g) for g in inp["gens"]]], separators=(",", ":"))
+
+
+def _load_f2_list():
+    for f in load_known_findings():
+        if f["id"] == "F2":
+            return {"seeds": set(f.get("harvested_seeds", [])), "instances": set(f.get("instances", []))}
+    return {"seeds": set(), "instances": set()}
+
+
+F2_LIST = _load_f2_list()
+
+
 def run_vcell_family(name, spec, tier, seed, cases_file, inputs_file=None, extra_invs=()):
     cfg = os.path.join(OUT, "tlc", "vcell_%s.cfg" % name)
     consts = dict(Inputs=("<-", "MCInputs"), Ties="keep", Order=spec["order"],
@@ -293,6 +307,17 @@ def lattice_pipeline(families, tier, seed, sim=None, profile="release", features
         else:
             if fverd.get((g, e, cell)) == "discord":
                 cls = "F2"
+        # Known finding F2 is listed by its INSTANCES: for the seeds whose residual instances have been enumerated on the unchanged
+        # tree (known_findings.json, F2.harvested_seeds, quick tier) only the listed inputs are excused; a failure with the
+        # structure of F2 on any other input is reported (a change that makes tie decisions inconsistent more often is a
+        # regression, not the known finding).  Other seeds / the thorough tier fall back to the structural signature alone.
+        if cls == "F2":
+            k = f2_key(f["input"])
+            if os.environ.get("VV_HARVEST"):
+                print("HARVEST-F2 %s" % k)
+            elif tier == "quick" and seed in F2_LIST["seeds"] and k not in F2_LIST["instances"]:
+                cls = "violation"
+                f["what"] = f["what"] + " (structure of known finding F2, but this input is not one of its listed instances)"
         f["class"] = cls
         f["trace_verdict"] = fverd.get((g, e, cell)) if cell is not None else sorted(set(runv))
         run.failures.append(f)
